@@ -329,6 +329,10 @@ def c13(res: CheckResult) -> None:
         rng.shuffle(pairs)
         pairs = pairs[:2500]
     pair_unit(res, "programs of C01/C02/C09/C16 rendered with def and with async def", pairs, ic)
+    # the misuse table on coroutine functions / async methods: reserved names are reported at the same moment and in the
+    # same way as on the sync twins (e.g. before any precondition is evaluated)
+    from icv import tablecheck as T
+    T.check_misuse(res, ic, only=lambda cell: cell["c"] in ("async_function", "async_method"))
 
 
 # ---- definition-time machine ---------------------------------------------------------------------------
